@@ -377,12 +377,19 @@ def run(tier):
                       "a handle is treated as consumed when its reply() returned >= 0 (API contract of reply_context_detached)",
                       "the exhaustive model is bounded (see MC cfg); beyond it coverage is by the seeded histories",
                       "memory safety of the calls is observed (exact-size heap buffers, ASan), not proved"]
+    # extension X12: requester side and datagram path (checks/x12_conn.py, docs/X12_conn.md)
+    import x12_conn
+    if x12_conn.enabled():
+        x12_conn.run_part(ck, tier)
     return ck.finish()
 
 
 def replay(path):
     d = json.load(open(path))
     det = d["detail"]
+    if det.get("x12"):
+        import x12_conn
+        return x12_conn.replay(det)
     beh = det.get("behaviour")
     if not beh:
         print(json.dumps(det, indent=1)[:4000])
